@@ -20,6 +20,9 @@ type Ctx struct {
 	Seed int64
 	// premises already run in this check (they are shared by several clauses)
 	statelessDone, statelessCompDone bool
+	// aliasWrites: the value properties C03-C06 also count S4's parameter-derived write findings inside the data layer
+	// (an operation that appends into / stores through an operand's own rows changes values an earlier result shows)
+	aliasWrites bool
 	premData, premShape              map[string]bool // Tensor methods already re-checked by a premise of this check
 	ruleOpsDone                      bool
 	thresholdOnly                    bool // RunData enumerates only the size-threshold shapes
